@@ -104,7 +104,10 @@ func (b *Base128Encoder) Encode(src []byte) []byte {
 		whichByte++
 	}
 
-	dst = append(dst, bufByte)
+	if whichByte != 1 {
+		// flush the bits still pending from the last (incomplete) group of 7 bytes
+		dst = append(dst, bufByte)
+	}
 	dst = escape128(dst)
 	return dst
 }
